@@ -110,12 +110,22 @@ func (p *Parser) ParseIfStatement() *ast.IfStatement {
 	}
 	p.NextToken()
 	stmt.ThenBranch = p.statementParseFn(p)
+	p.checkSingleStatementBody(stmt.ThenBranch)
 	if p.PeekToken.Type == token.ELSE {
 		p.NextToken()
 		p.NextToken()
 		stmt.ElseBranch = p.statementParseFn(p)
+		p.checkSingleStatementBody(stmt.ElseBranch)
 	}
 	return stmt
+}
+
+// checkSingleStatementBody reports a let declaration used as the brace-less body
+// of if / else / while / for, which ECMAScript does not allow.
+func (p *Parser) checkSingleStatementBody(body ast.Statement) {
+	if let, ok := body.(*ast.LetStatement); ok && let != nil {
+		p.AddErrorAtToken("let declaration is not allowed as the body of a statement, use a block", let.Token)
+	}
 }
 
 func (p *Parser) ParseWhileStatement() *ast.WhileStatement {
@@ -130,6 +140,7 @@ func (p *Parser) ParseWhileStatement() *ast.WhileStatement {
 	}
 	p.NextToken()
 	stmt.Body = p.statementParseFn(p)
+	p.checkSingleStatementBody(stmt.Body)
 	return stmt
 }
 
@@ -166,6 +177,7 @@ func (p *Parser) ParseForStatement() *ast.ForStatement {
 	}
 	p.NextToken()
 	stmt.Body = p.statementParseFn(p)
+	p.checkSingleStatementBody(stmt.Body)
 	return stmt
 }
 
